@@ -25,6 +25,17 @@ def cases(tier, seed):
         ap = c09.gen_append(r, F, R, X)
         while ap["src"] == "X":
             ap = c09.gen_append(r, F, R, X)
+        if i % 4 == 1:
+            # directed: a Custom node with node-valued attributes AND a child, present in file and runtime tree, replaced by an
+            # append-over of the whole root (its attribute groups are body, its children are links to carry over)
+            def vc(tag):
+                attrs = [[k, {"name": k, "cls": c, "pay": gen.gen_payload(r, c), "md": [], "kids": []}]
+                         for k, c in (("first", "Array"), ("_second", r.choice(["Node", "PointList"])))]
+                return {"name": "vc", "cls": "Custom", "pay": {"attrs": attrs}, "md": [], "kids": [
+                    {"name": "kept_" + tag, "cls": "Node", "pay": {}, "md": [], "kids": []}]}
+            for t, tag in ((F, "f"), (R, "r")):
+                t["kids"] = [k for k in t["kids"] if k["name"] != "vc"] + [vc(tag)]
+            ap = {"src": "R", "target": [], "mode": r.choice(["ao", "appendover"]), "tree": True, "emdpath": None}
         # naturally failing saves are tried for every pair (see `attempt`); the root of the file tree mostly carries metadata,
         # so that an append meets entries it has to skip before it reaches the one that fails
         if not F["md"] and r.random() < 0.7:
